@@ -146,3 +146,8 @@ M('c06-scope-header-mangling', 'C06', 'R5', 'falcon/testing/helpers.py',
   "            n = name.lower().encode('latin1')", "            n = name.encode('latin1')")
 M('c06-environ-content-header-set', 'C06', 'R5', 'falcon/testing/helpers.py',
   "            if name_wsgi not in ('CONTENT_TYPE', 'CONTENT_LENGTH'):", "            if name_wsgi not in ('CONTENT_TYPE',):")
+
+M('c06-asgi-access-route-peer-membership', 'C06', 'R6', 'falcon/asgi/request.py',
+  "                if self._cached_access_route[-1] != client:", "                if client not in self._cached_access_route:")
+M('c06-asgi-strip-all-trailing-slashes', 'C06', 'R3', 'falcon/asgi/request.py',
+  "            self.path = path[:-1]", "            self.path = path.rstrip('/')")
